@@ -14,7 +14,7 @@ def display_sites_of_constvalue(b):
         for (kind, c) in s["args"]:
             if c is None or kind != "new_display":
                 continue
-            if any(re.search(r"async_graphql_value::ConstValue$|ConstValue>$", g) and "Positioned" not in g or g.endswith("ConstValue") for g in c.generics):
+            if any(re.search(r"async_graphql_value::(ConstValue|Value)$|(ConstValue|Value)>$", g) for g in c.generics):
                 out.append((s, c))
     return out
 
@@ -53,9 +53,10 @@ def run(F, R):
             key = re.sub(r"\{impl#\d+\}", "{impl}", b.owner.replace("async_graphql::registry::", ""))
             if inside:
                 continue
-            R.violation("R21.1", "raw-value-printed:" + key, s["call"].where(),
-                        "a ConstValue is formatted with Display outside stringify_input_value (variable default values are printed verbatim): a secret "
-                        "supplied as a variable's default value appears in the logged text")
+            what = "variable-default" if any("VariableDefinition" in t or "default_value" in str(trace(b, c.args[0])[0]) for t in [""]) and "default_value" in str(trace(b, c.args[0])[0]) else "argument-value"
+            R.violation("R21.1", "raw-value-printed:%s%s" % (key, "" if what == "variable-default" else ":" + what), s["call"].where(),
+                        "a client-supplied value is formatted with Display outside stringify_input_value (%s printed verbatim): a secret "
+                        "supplied there appears in the logged text" % what)
     regs = enum_arm_regions(siv, r"async_graphql_value::ConstValue$")
     R.floor("R21.1", "ConstValue match in stringify_input_value", len(regs), 1)
     arms = set()
@@ -66,6 +67,18 @@ def run(F, R):
             R.check(bool(rec), "R21.1", "stringify_input_value:%s-recurses" % v, siv.where(), "recursive masking",
                     "the %s case falls into the generic Display arm: secret input-object fields nested inside a list are printed verbatim" % v if v not in named
                     else "the %s arm does not recurse" % v)
+    # inside the Object arm a raw Display of the whole object is acceptable only when the value's type is NOT a known input object
+    for sbb, named in regs[:1]:
+        objb = named.get("Object", set())
+        for (s2, place, adt, arms, other, vmap) in siv.enum_switches(r"registry::MetaType$"):
+            if s2 not in objb or "InputObject" not in arms:
+                continue
+            for (st, c) in display_sites_of_constvalue(siv):
+                if st["call"].bb in objb:
+                    leak = st["call"].bb in siv.reachable(arms["InputObject"], avoid=[s2])
+                    R.check(not leak, "R21.1", "stringify_input_value:input-object-printed-whole", st["call"].where(), "whole-object Display only for non-input-object types",
+                            "an object value whose type is a registered input object can be printed as a whole with Display (fast path): secret fields nested "
+                            "below a wrapper input type are not masked")
     # the is_secret test dominates every Display of the value
     sec = [bb for bb, s in siv.all_stmts() if False]
     reads_secret = any("is_secret" in x.field_reads() for x in F.with_nested(siv))
